@@ -242,6 +242,25 @@ def drive(r, spec, respond="random", faults=None, max_steps=80):
             res["events"].append((kind, tk) + extra + ({"status": st[0], "stopped": st[1], "pending_stop": v.pending_stop(), "now": ticks(v.reactor.seconds())},))
         hs = handshake_bytes(spec)
         cut = r.randrange(1, len(hs)) if r.random() < .3 else len(hs)
+        if getattr(spec, "silent_in_handshake", False):
+            # the server accepts the connection, sends a prefix of its handshake (possibly nothing) and then says nothing more
+            cut = r.choice([0, 5, 12, 13, 14, 18, 20, len(hs) - 2])
+            part = hs[:cut]
+            if part:
+                spec.events.append(("recv", part))
+                note("recv", v.feed(part))
+            while v.reactor.getDelayedCalls() and v.reactor.stopped_at is None:
+                nxt = min(v.reactor.getDelayedCalls(), key=lambda c: c.getTime())
+                name = getattr(nxt.func, "__name__", "")
+                t, tk = v.fire()
+                spec.events.append(("fire",))
+                note("timeout" if name == "error" else ("stop" if name == "stop" else "timer"), tk, t)
+            res["zlog"] = v.zlog
+            res["screen"] = None
+            res["final_status"] = v.status()
+            res["finished"] = False
+            res["stalled"] = False
+            return res
         for part in (hs[:cut], hs[cut:]):
             if part:
                 spec.events.append(("recv", part))
@@ -256,6 +275,19 @@ def drive(r, spec, respond="random", faults=None, max_steps=80):
                 if kind in ("lose-clean", "lose-error"):
                     spec.events.append(("lose", kind == "lose-clean"))
                     note(kind, v.lose(kind == "lose-clean"))
+                    break
+                if kind == "unknown-encoding":
+                    # a framebuffer update with a good rectangle and one whose encoding the client does not know, in one
+                    # chunk (either order): the client aborts; nothing after the abort may count as progress of the script
+                    good = enc_raw(r, spec.pf, 0, 0, min(4, spec.size[0]), min(3, spec.size[1]))
+                    bad = struct.pack("!HHHHi", 0, 0, 2, 2, r.choice([99, 7, -300, 0x7FFFFFFF])) + bytes(r.choice([0, 16, 40]))
+                    body = (good.header() + good.body + bad) if r.random() < .5 else (bad + good.header() + good.body)
+                    data = struct.pack("!BxH", 0, 2) + body
+                    spec.events.append(("recv", data))
+                    note("recv", v.feed(data))
+                    if v.proto.transport.closed:
+                        spec.events.append(("lose", True))
+                        note("lose-clean", v.lose(True))
                     break
                 if kind == "unknown-msg":
                     spec.events.append(("recv", b"\x09"))
